@@ -58,7 +58,7 @@ let register reg =
       let t = (if tp = "-" then None else
         (match split ',' tp with
          | [id; first; last; off; next; data] ->
-           Some { wp_id = z id; wp_first = z first; wp_last = z last; wp_off = nat_tok off; wp_dirty = false; wp_next = z next; wp_data = bytes_of_tok data }
+           Some { wp_id = z id; wp_first = z first; wp_last = z last; wp_off = nat_tok off; wp_dirty = false; wp_next = z next; wp_data = bytes_of_tok data; wp_disk = Some (bytes_of_tok data) }
          | _ -> failwith "bad tail page")) in
       let ps = nat_tok ps in
       let s = w_init ps (z pages) t (z endid) (root_of head tail inuse) in
